@@ -62,11 +62,15 @@ def repo_pkgs(scn):
 
 
 def need(pk):
-    """Files the package needs for certain (the USE-evaluated list); raw-only extras are reported separately."""
+    """Distfiles of the *configured* package (SRC_URI evaluated against the active USE flags): what an installed
+    package needs (pclean documents that -I uses the USE-bound list)."""
     return set(flat(pk["distfiles"]))
 
 
 def need_raw(pk):
+    """Every distfile the ebuild lists, including those behind `flag? ( )` / `!flag? ( )` groups that the current USE
+    setting disables: a package *in the repositories* needs all of them (the tree, its Manifest and every other USE
+    setting refer to them), so this is the need-set for -E, -f and -x."""
     return set(flat(pk["raw_distfiles"] or pk["distfiles"]))
 
 
@@ -82,11 +86,12 @@ def judge(scn, before, after, outside_before, outside_after, t_end):
                 and not any(matches(p, pk) for p in o["excludes"])]
     keep = {
         "keep-installed": set().union(*[need(pk) for pk in scn["installed"]]) if o["I"] else set(),
-        "keep-exists": set().union(*[need(pk) for pk in pkgs]) if o["E"] else set(),
-        "keep-fetch-restricted": set().union(*[need(pk) for pk in pkgs if "fetch" in pk["restrict"]]) if o["f"] else set(),
-        "keep-excluded": set().union(*[need(pk) for pk in excluded]) if o["excludes"] else set(),
+        "keep-exists": set().union(*[need_raw(pk) for pk in pkgs]) if o["E"] else set(),
+        "keep-fetch-restricted": set().union(*[need_raw(pk) for pk in pkgs if "fetch" in pk["restrict"]]) if o["f"] else set(),
+        "keep-excluded": set().union(*[need_raw(pk) for pk in excluded]) if o["excludes"] else set(),
     }
     raw_only = set().union(*[need_raw(pk) - need(pk) for pk in pkgs]) if pkgs else set()
+    facts["conditional_guarded"] = sorted(raw_only & set(before) & set().union(*[keep[g] for g in keep if g != "keep-installed"]))
     inst_only_fetch = set().union(*[need(pk) for pk in scn["installed"] if "fetch" in pk["restrict"]]) if o["f"] else set()
     for g, s in keep.items():
         facts["guards"][g] = sorted(s & set(before))
@@ -113,11 +118,12 @@ def judge(scn, before, after, outside_before, outside_after, t_end):
             if f in s:
                 viol.append((g, {"rule": g, "file": f, "needed_by": sorted(
                     "%s/%s-%s" % (pk["cat"], pk["pn"], pk["ver"]) for pk in (scn["installed"] if g == "keep-installed" else pkgs)
-                    if f in need(pk)), "needed_by_targeted": f in need_targeted, "with_targets": bool(o["targets"]),
+                    if f in (need(pk) if g == "keep-installed" else need_raw(pk))),
+                    "behind_disabled_use_conditional": g != "keep-installed" and f in raw_only and not any(
+                        f in need(pk) for pk in pkgs),
+                    "needed_by_targeted": f in need_targeted, "with_targets": bool(o["targets"]),
                     "attributable_to_targets": (None if not o["targets"] or vacuous else
                                                 any(norm(f).startswith(p) for p in prefixes))}))
-        if f in raw_only and (o["E"] or o["f"] or o["excludes"]):
-            facts["unspecified"].append("removed file is only a USE-conditional (raw) distfile of a repository package")
         if f in inst_only_fetch and f not in keep["keep-fetch-restricted"]:
             facts["unspecified"].append("removed file belongs to a fetch-restricted package that is only installed")
         if o["size"]:
